@@ -142,6 +142,7 @@ struct WireResp {
     body: Vec<u8>,
     complete: bool,
     timed_out: bool,
+    conn_close: bool,
 }
 
 fn wire_exchange(addr: std::net::SocketAddr, accept: Option<&str>, case_hdr: &str) -> Option<WireResp> {
@@ -192,6 +193,7 @@ fn wire_exchange(addr: std::net::SocketAddr, accept: Option<&str>, case_hdr: &st
     let mut lines = head.split("\r\n");
     let status: u16 = lines.next()?.split(' ').nth(1)?.parse().ok()?;
     let (mut cl, mut chunked, mut label) = (-1i64, false, "identity".to_string());
+    let mut conn_close = false;
     for l in lines {
         if let Some((n, v)) = l.split_once(':') {
             let (n, v) = (n.trim().to_ascii_lowercase(), v.trim());
@@ -199,6 +201,7 @@ fn wire_exchange(addr: std::net::SocketAddr, accept: Option<&str>, case_hdr: &st
                 "content-length" => cl = v.parse().unwrap_or(-2),
                 "transfer-encoding" => chunked = v.to_ascii_lowercase().contains("chunked"),
                 "content-encoding" => label = v.to_string(),
+                "connection" => conn_close = v.eq_ignore_ascii_case("close"),
                 _ => {}
             }
         }
@@ -262,7 +265,7 @@ fn wire_exchange(addr: std::net::SocketAddr, accept: Option<&str>, case_hdr: &st
         timed_out = !closed;
         body = rest;
     }
-    Some(WireResp { status, label, framing, cl, body, complete, timed_out })
+    Some(WireResp { status, label, framing, cl, body, complete, timed_out, conn_close })
 }
 
 fn start_wire_server() -> (std::net::SocketAddr, actix_web::dev::ServerHandle) {
@@ -365,9 +368,9 @@ pub fn replay(cases: &[Value], out: &mut TraceOut) {
                             // a status that cannot carry a body has nothing to compare
                             let decoded_ok = w.framing == "none" || decode(&w.label, &w.body).map(|d| d == orig).unwrap_or(false);
                             out.emit(json!({"ev":"wire","status":w.status,"label":w.label,"framing":w.framing,"cl":w.cl,"got":w.body.len(),
-                                            "complete":w.complete,"timed_out":w.timed_out,"decoded_ok":decoded_ok,"n":n}));
+                                            "complete":w.complete,"timed_out":w.timed_out,"conn_close":w.conn_close,"decoded_ok":decoded_ok,"n":n}));
                         }
-                        None => out.emit(json!({"ev":"wire","status":0,"label":"","framing":"none","cl":-1,"got":0,"complete":false,"timed_out":true,"decoded_ok":false,"n":n})),
+                        None => out.emit(json!({"ev":"wire","status":0,"label":"","framing":"none","cl":-1,"got":0,"complete":false,"timed_out":true,"conn_close":false,"decoded_ok":false,"n":n})),
                     }
                 }
                 k => panic!("kind {k}"),
